@@ -144,7 +144,7 @@ func replayNativeRun(spec *HarnessSpec, v *Violation, wpath string) string {
 		i++
 		os.WriteFile(real, src, 0o644)
 		repl[virt] = real
-		if strings.HasSuffix(virt, "zz_verif_api.go") {
+		if virt == filepath.Join(repoDir(), spec.Pkg, "zz_verif_api.go") {
 			for _, ln := range strings.Split(string(src), "\n") {
 				if strings.HasPrefix(ln, "package ") {
 					pkgName = strings.TrimSpace(strings.TrimPrefix(ln, "package "))
@@ -229,7 +229,7 @@ func validateTraces(ps *PropertySpec, results []*HarnessResult, outDir string) (
 			i++
 			os.WriteFile(real, src, 0o644)
 			repl[virt] = real
-			if strings.HasSuffix(virt, "zz_verif_api.go") {
+			if virt == filepath.Join(repoDir(), pkg, "zz_verif_api.go") {
 				for _, ln := range strings.Split(string(src), "\n") {
 					if strings.HasPrefix(ln, "package ") {
 						pkgName = strings.TrimSpace(strings.TrimPrefix(ln, "package "))
